@@ -1,7 +1,7 @@
 SPECIFICATION GSpec
 CONSTANTS
   GKeys = {1, 2, 3}
-  MaxOps = 4
-  NTrees = 7
+  MaxOps = 3
+  NTrees = 11
 INVARIANT Emit
 CHECK_DEADLOCK FALSE
